@@ -25,7 +25,23 @@ def listing(text):
     from explorerscript.ssb_converting.compiler.compiler_visitor.position_mark_visitor import PositionMarkVisitor
 
     tree = ExplorerScriptReader(text).read()
-    return PositionMarkVisitor().visit(tree)
+    fresh = PositionMarkVisitor().visit(tree)
+    # an editor keeps its visitor: the listing of an object that has listed other files before must be the same
+    if _REUSED[0] is None:
+        _REUSED[0] = PositionMarkVisitor()
+    again = _REUSED[0].visit(ExplorerScriptReader(text).read())
+    _REUSED[1] += 1
+    key = lambda ms: [(m.line_number, m.column_number, m.end_line_number, m.end_column_number, m.name, m.x_offset, m.y_offset, m.x_relative, m.y_relative) for m in ms or []]
+    if key(again) != key(fresh):
+        raise ReusedVisitorDiffers(f"{len(again or [])} entries from the reused visitor, {len(fresh or [])} from a fresh one")
+    return fresh
+
+
+_REUSED = [None, 0]
+
+
+class ReusedVisitorDiffers(Exception):
+    pass
 
 
 def compiled_marks(c):
@@ -46,6 +62,9 @@ def check(acc, prog, sseed, lseed, mode, name, sample=False):
     acc.announce(name, {"text": r.text})
     try:
         marks = listing(r.text)
+    except ReusedVisitorDiffers as e:
+        acc.violation(gsig("listing-of-a-reused-visitor-differs"), {"detail": str(e), "listings_by_that_visitor": _REUSED[1]}, inp)
+        return
     except Exception as e:
         acc.count("listing_raised:" + type(e).__name__)
         return
